@@ -172,6 +172,9 @@ inductive Op
   /-- an interaction over session `s` that does not touch the administrative state (handler-level
   path: group key map / binding / user label / node label writes, subscribe): only the IM prologue runs -/
   | ext (s : Nat)
+  /-- a fabric-scoped write whose content the model does not track (group key map): the fabric record
+  is stored, or the store is deferred, exactly as for an ACL write -/
+  | fwrite (s : Nat)
   | tick (secs : Nat)
   | poll
   | flush
@@ -644,12 +647,23 @@ def sessOp (cfg : Cfg) (n : Node) (sid : Nat) (mode : Mode) : Op → Node × Sta
     -- gen_comm.rs:282 `set_breadcrumb`: no fail-safe check; reset by disarm / expiry
     ok { n with bc := v }
   | .ext _ => ok n
+  | .fwrite _ =>
+    -- grp_key_mgmt.rs:193 `set_group_key_map`: change, then `persist.store` unless armed for this fabric
+    if mode.fab = 0 then (n, .err "UnsupportedAccess")
+    else match getFabric n mode.fab with
+      | none => (n, .err "NotFound")
+      | some f =>
+        let n := setFabric n f
+        if armedFor n f.idx then ok (markDeferred n)
+        else match storeFabric n f with
+          | (n, true) => ok n
+          | (n, false) => (n, .err "NoSpace")
   | _ => (n, .err "bad")
 
 def isSessOp : Op → Option Nat
   | .openW s | .arm s _ | .csr s _ | .root s _ | .addnoc s _ _ _ _ _ | .updnoc s _ _ | .acl s _
   | .grp s _ | .label s _ | .net s _ | .rmnet s _ | .complete s | .rmfab s _ | .revoke s
-  | .bcw s _ | .ext s => some s
+  | .bcw s _ | .ext s | .fwrite s => some s
   | _ => none
 
 def step (cfg : Cfg) (n : Node) (op : Op) : Node × Status :=
